@@ -565,3 +565,153 @@ func errName(err error) string {
 	}
 	return "err"
 }
+
+// ============================================================================
+// flow: a started Bridge with data in flight; the bridge's own completion paths
+//   flow mode <eof|err|werr|close|ctx> chunk <c> at <k> rep <K> ms <seed>
+//     the source endpoint hands out <c> bytes per Read; at Read number <k> (1-based):
+//       eof   it returns io.EOF              err   it returns an error
+//       werr  (k-th Write of the target endpoint fails instead)
+//       close Bridge.Close() is called from another goroutine, the Read waits for it
+//       ctx   the PARENT context is cancelled and data keeps flowing: the copy loop leaves
+//             through its periodic context check (every ContextCheckInterval iterations)
+//   obs: del <bytes the target endpoint accepted> cnt <bridge bytesSent> stats|cstats <s> <r> upd <n> leak <g>
+// ============================================================================
+
+type flowConn struct {
+	chunk    int
+	at       int
+	mode     string
+	isSource bool
+	reads    int
+	writes   int
+	accepted atomic.Int64
+	closed   atomic.Bool
+	closedCh chan struct{}
+	once     sync.Once
+	onAt     func()
+}
+
+type flowAddr struct{}
+
+func (flowAddr) Network() string { return "flow" }
+func (flowAddr) String() string  { return "flow" }
+
+func (c *flowConn) Read(p []byte) (int, error) {
+	if !c.isSource {
+		<-c.closedCh // the reverse direction is idle until the bridge closes it
+		return 0, io.ErrClosedPipe
+	}
+	if c.closed.Load() {
+		return 0, io.ErrClosedPipe
+	}
+	c.reads++
+	if c.reads == c.at {
+		switch c.mode {
+		case "eof":
+			return 0, io.EOF
+		case "err":
+			return 0, fmt.Errorf("endpoint reset")
+		case "close", "ctx":
+			c.onAt()
+			if c.mode == "close" {
+				return 0, io.ErrClosedPipe
+			}
+		}
+	}
+	if c.reads > 60000 {
+		return 0, io.EOF // safety net
+	}
+	n := c.chunk
+	if n > len(p) {
+		n = len(p)
+	}
+	return n, nil
+}
+
+func (c *flowConn) Write(p []byte) (int, error) {
+	if c.closed.Load() {
+		return 0, io.ErrClosedPipe
+	}
+	c.writes++
+	if c.mode == "werr" && !c.isSource && c.writes == c.at {
+		return 0, fmt.Errorf("endpoint reset")
+	}
+	c.accepted.Add(int64(len(p)))
+	return len(p), nil
+}
+
+func (c *flowConn) Close() error {
+	c.closed.Store(true)
+	c.once.Do(func() { close(c.closedCh) })
+	return nil
+}
+func (c *flowConn) LocalAddr() net.Addr                { return flowAddr{} }
+func (c *flowConn) RemoteAddr() net.Addr               { return flowAddr{} }
+func (c *flowConn) SetDeadline(t time.Time) error      { return nil }
+func (c *flowConn) SetReadDeadline(t time.Time) error  { return nil }
+func (c *flowConn) SetWriteDeadline(t time.Time) error { return nil }
+
+func runFlow(t []string) string {
+	mode, chunk, at, rep := t[2], atoi(t[4]), atoi(t[6]), atoi(t[8])
+	var first string
+	for it := 0; it < rep; it++ {
+		obs := flowOnce(mode, chunk, at)
+		if it == 0 {
+			first = obs
+		}
+		if obs != first {
+			return obs
+		}
+	}
+	return first
+}
+
+func flowOnce(mode string, chunk, at int) string {
+	base := baseline()
+	parent, cancel := context.WithCancel(context.Background())
+	defer cancel()
+	cc := &windowCC{sem: make(chan struct{}, 1), window: 2 * time.Millisecond}
+	cc.m.ID = "m1"
+	src := &flowConn{chunk: chunk, at: at, mode: mode, isSource: true, closedCh: make(chan struct{})}
+	tgt := &flowConn{chunk: chunk, at: at, mode: mode, closedCh: make(chan struct{})}
+	var stc, ttc atomic.Int32
+	b := stunnel.NewBridge(parent, &stunnel.BridgeConfig{
+		TunnelID: "flow", MappingID: "m1", ClientID: 1, CloudControl: cc,
+		SourceTunnelConn: &fakeTC{conn: src, closes: &stc},
+	})
+	closeDone := make(chan struct{})
+	src.onAt = func() {
+		if mode == "ctx" {
+			cancel() // node / session-manager shutdown while data is flowing
+			return
+		}
+		go func() { b.Close(); close(closeDone) }()
+		<-closeDone
+	}
+	b.SetTargetConnection(&fakeTC{conn: tgt, closes: &ttc})
+	startDone := make(chan struct{})
+	go func() { defer close(startDone); b.Start() }()
+	select {
+	case <-startDone:
+	case <-time.After(20 * time.Second):
+		return "timeout start"
+	}
+	deadline := time.Now().Add(5 * time.Second)
+	for b.IsActive() && time.Now().Before(deadline) {
+		time.Sleep(50 * time.Microsecond)
+	}
+	late := withWatchdog(5*time.Second, func() string { b.Close(); return "ok" })
+	if late != "ok" {
+		return late
+	}
+	cancel()
+	g, _ := leaked(base, 8*time.Second)
+	m := cc.get()
+	label := "stats"
+	if mode == "close" {
+		label = "cstats" // see Spec.holdsF lateFlush: not compared with the model, only bounded
+	}
+	return fmt.Sprintf("del %d cnt %d "+label+" %d %d upd %d leak %d", tgt.accepted.Load(), b.GetBytesSent(),
+		m.TrafficStats.BytesSent, m.TrafficStats.BytesReceived, cc.updates, g)
+}
